@@ -236,7 +236,7 @@ func TestC01(t *testing.T) {
 		"1..6 well-formed requests on one connection (methods, paths, authority, 0..12 regular fields incl. repeats/cookies/te, bodies 0..40000 with any DATA chunking, empty frames and padding, optional trailers) encoded by the in-harness RFC 7541 encoder with a per-field representation choice and references to entries inserted by earlier requests, header blocks cut into HEADERS+CONTINUATION at arbitrary octet offsets, PADDED/PRIORITY on HEADERS; frames of different streams interleaved and gated handlers released by a generated schedule, lock-step (quiescence after every action, decided by hook counters) or burst; responses buffered or streamed with declared/unknown/zero size and generated reader chunking. Oracle: handler ran exactly once per request and saw method, path, authority, field multiset (+trailers), cookies and body as sent; the peer got on the same stream the status, every field the handler set, the body, as HEADERS then DATA with END_STREAM exactly once; no RST_STREAM/GOAWAY/EOF; window ledger respected. Non-trivial = >=2 streams, or a split header block, padding, priority or a streamed response; distinct by case hash.",
 		"request fields stay inside token/field-value grammar; singleton fields (content-type, user-agent, host) at most once; no 1xx/204/304; cookie pairs are k=v; RequestURI() (not the normalised Path()) is compared")
 	defer s.finish()
-	runLane(s, Lane[c01Case]{Name: "exchange", Quick: 2500, Thor: 400000, Gen: c01Gen, Run: c01Run})
+	runLane(s, Lane[c01Case]{Name: "exchange", Journal: true, Quick: 2500, Thor: 400000, Gen: c01Gen, Run: c01Run})
 }
 
 var _ = rawframe.Data
